@@ -126,3 +126,131 @@ def cases(tier):
         cs += [Preserve(2, extents=(1, 2, 3, 4)), Preserve(3, extents=(1, 2, 3), limit=200), Preserve(4, extents=(1, 2, 3), limit=150),
                Preserve(5, extents=(1, 2), limit=120), Preserve(4, extents=(1, 2, 3), limit=150, shrink=True)]
     return cs
+
+
+# --------------------------------------------------------------------------- real recreate_network with symbolic weights
+
+from gymnasium import spaces as _spaces
+from symx import tensor as _T
+from agilerl.modules.mlp import EvolvableMLP as _MLP
+from agilerl.modules.cnn import EvolvableCNN as _CNN
+from agilerl.networks.actors import StochasticActor as _SActor, DeterministicActor as _DActor
+from agilerl.networks.q_networks import QNetwork as _QNet
+from agilerl.networks.value_networks import ValueNetwork as _VNet
+
+def _cfg():
+    # a fresh configuration per build: the mutation methods modify the hidden_size lists IN PLACE
+    return dict(encoder_config={"hidden_size": [3], "min_mlp_nodes": 1, "max_mlp_nodes": 8}, head_config={"hidden_size": [2], "min_mlp_nodes": 1, "max_mlp_nodes": 8},
+                latent_dim=3, min_latent_dim=1, max_latent_dim=8)
+
+
+FACTORIES = {
+    "mlp": lambda: _MLP(2, 2, [3, 2], min_mlp_nodes=1, max_mlp_nodes=8, min_hidden_layers=1, max_hidden_layers=3),
+    "cnn": lambda: _CNN([1, 6, 6], 2, [2, 3], [2, 2], [1, 1], min_channel_size=1, max_channel_size=6, min_hidden_layers=1, max_hidden_layers=3),
+    "stochastic-actor-box": lambda: _SActor(_spaces.Box(-1, 1, (2,)), _spaces.Box(-1, 1, (2,)), **_cfg()),
+    "stochastic-actor-discrete": lambda: _SActor(_spaces.Box(-1, 1, (2,)), _spaces.Discrete(2), **_cfg()),
+    "qnetwork": lambda: _QNet(_spaces.Box(-1, 1, (2,)), _spaces.Discrete(2), **_cfg()),
+    "value": lambda: _VNet(_spaces.Box(-1, 1, (2,)), **_cfg()),
+    "deterministic-actor": lambda: _DActor(_spaces.Box(-1, 1, (2,)), _spaces.Box(-1, 1, (2,)), **_cfg()),
+}
+
+
+def _owner(mod, dotted):
+    parts = dotted.split(".")
+    for p in parts[:-1]:
+        mod = getattr(mod, p)
+    return mod, parts[-1]
+
+
+def _call(mod, dotted, kwargs):
+    o, name = _owner(mod, dotted)
+    return getattr(o, name)(**kwargs)
+
+
+class RecreateReal(Case):
+    """a REAL mutation (real recreate_network, real new layers) of a real module whose current weights are symbols: which
+    (old, new) pair every recreate_network hands to preserve_parameters, and whether names survive the rebuild"""
+    stubs = ("none: the real module and its real recreate_network; the module's current parameters are replaced by symbolic parameters before the mutation; "
+             "symbolic content written into the freshly built real parameters is captured in a shadow store",)
+    outside = ("forward passes on the mutated network (clone()(x) == self(x))", "EvolvableMultiInput, LSTM, SimBa, ResNet, GPT, BERT")
+
+    def __init__(self, module, method, kwargs):
+        self.module, self.method, self.kwargs = module, method, dict(kwargs)
+        self.name = f"recreate-{module}-{method}" + ("" if not kwargs else "-" + "-".join(f"{k}{v_}" for k, v_ in kwargs.items()))
+        self.site = f"recreate_network/{module}.{method}"
+        self.functions = (EvolvableModule.preserve_parameters,)
+        self.bounds = {"module": module, "mutation": method, "arguments": kwargs, "symbolic": "every weight of the module before the mutation"}
+
+    def run(self, v):
+        torch.manual_seed(3)
+        try:
+            m = FACTORIES[self.module]()
+        except Exception as ex:   # noqa: BLE001
+            raise HarnessError(f"could not build {self.module}: {type(ex).__name__}: {ex}")
+        old = {}
+        for name, p in list(m.named_parameters()):
+            sym = v.tensor(f"w.{name}", tuple(p.shape))
+            o, attr = _owner(m, name)
+            setattr(o, attr, torch.nn.Parameter(sym if v.mode != "real" else sym.clone()))
+            old[name] = np.array(content(dict(m.named_parameters())[name].data), dtype=object, copy=True)
+        _T.SHADOW.clear()
+        # `real_param.data = symbolic_tensor` is performed natively by torch (no dispatch): intercept the property on
+        # nn.Parameter so that the symbolic content lands in the shadow store instead of rebinding storage
+        _get, _set = torch.Tensor.data.__get__, torch.Tensor.data.__set__
+
+        def _data_set(self_, value):
+            if isinstance(value, SymTensor) and not isinstance(self_, SymTensor):
+                if tuple(value.shape) != tuple(self_.shape):
+                    raise HarnessError(".data assignment with a different shape onto a real parameter")
+                _T.SHADOW[self_.data_ptr()] = (self_, np.array(value._e, dtype=object, copy=True))
+            else:
+                _set(self_, value)
+        patches = [(torch.nn.Parameter, "data", property(lambda self_: _get(self_), _data_set))] if v.mode != "real" else []
+        with patched(*patches):
+            _call(m, self.method, self.kwargs)
+        res = []
+        new = dict(m.named_parameters())
+        res.append(Ob("parameters-that-exist-before-and-after", len(set(new) & set(old)) > 0))
+        for name in sorted(new):
+            if name not in old:
+                continue
+            now = _T.effective(new[name].data) if v.mode != "real" else new[name].detach().numpy()
+            so, sn = old[name].shape, tuple(now.shape)
+            if len(so) != len(sn):
+                res.append(Ob(f"{name}/rank-kept", False))
+                continue
+            common = tuple(min(a, b) for a, b in zip(so, sn))
+            keep = [eq(now[idx] if isinstance(now[idx], Sym) else float(now[idx]), old[name][idx]) for idx in np.ndindex(*common)]
+            site = self.site + ("/norm-parameters-reset-on-resize" if "norm" in name and so != sn else "")
+            if "norm" in name and so != sn:
+                site = "EvolvableModule.preserve_parameters/norm-parameters-reset-on-resize" if "shrink" not in self.method else site
+            res.append(Ob(f"{name}/{so}->{sn}/learned-weights-carried-over-on-the-common-index-range", conj(*keep) if keep else True, site=site))
+        names = [n for n in sorted(set(new) & set(old)) if "norm" not in n]
+        if names:
+            n0 = names[0]
+            now = _T.effective(new[n0].data) if v.mode != "real" else new[n0].detach().numpy()
+            res.append(Ob("twin/first-parameter-is-all-zero", conj(*[eq(x if isinstance(x, Sym) else float(x), 0) for x in np.asarray(now, dtype=object).reshape(-1)]), expect="sat"))
+        _T.SHADOW.clear()
+        return res
+
+
+_REAL_CASES = [
+    ("mlp", "add_node", {"hidden_layer": 0, "numb_new_nodes": 1}), ("mlp", "remove_node", {"hidden_layer": 0, "numb_new_nodes": 1}),
+    ("mlp", "add_layer", {}), ("mlp", "remove_layer", {}),
+    ("cnn", "add_channel", {"hidden_layer": 0, "numb_new_channels": 1}), ("cnn", "remove_channel", {"hidden_layer": 1, "numb_new_channels": 1}),
+    ("stochastic-actor-box", "add_latent_node", {"numb_new_nodes": 1}), ("stochastic-actor-box", "remove_latent_node", {"numb_new_nodes": 1}),
+    ("stochastic-actor-box", "add_latent_node", {"numb_new_nodes": 100}),
+    ("stochastic-actor-discrete", "add_latent_node", {"numb_new_nodes": 1}), ("qnetwork", "add_latent_node", {"numb_new_nodes": 1}),
+    ("qnetwork", "encoder.add_node", {"hidden_layer": 0, "numb_new_nodes": 1}), ("value", "remove_latent_node", {"numb_new_nodes": 1}),
+    ("deterministic-actor", "head_net.add_node", {"hidden_layer": 0, "numb_new_nodes": 1}),
+]
+_orig_cases = cases
+
+
+def cases(tier):   # noqa: F811
+    cs = _orig_cases(tier)
+    cs += [RecreateReal(*c) for c in _REAL_CASES]
+    if tier == "thorough":
+        cs += [RecreateReal("cnn", "remove_layer", {}), RecreateReal("cnn", "add_layer", {}), RecreateReal("value", "head_net.remove_node", {"hidden_layer": 0, "numb_new_nodes": 1}),
+               RecreateReal("deterministic-actor", "add_latent_node", {"numb_new_nodes": 2})]
+    return cs
